@@ -16,8 +16,21 @@ HtmlTokens == {"<b>", "</b>", "<i>", "</i>", "<u>", "<s>", "</s>", "<code>", "</
 MdTokens == {"*", "**", "_", "__", "`", "```", "```go NL", "[", "](http://x.y)", "](tg://user?id=1)", ")", "~~", "||", "\\", ">", "# ", "- ", "1. ",
              "a", "U+1F600", " ", "NL", "0xFF", "0xF0 0x9F", "U+00A0", "&amp;", "<b>", "!["}
 
+\* nesting skeletons (beyond the exhaustive bound): an outer and an inner element, text before / inside / after the
+\* inner one, optionally a plain tail; whitespace at the ends is where the builder trims
+HOpen == [b |-> "<b>", i |-> "<i>", code |-> "<code>", a |-> "<a href=\"http://x.y\">", pre |-> "<pre>"]
+HClose == [b |-> "</b>", i |-> "</i>", code |-> "</code>", a |-> "</a>", pre |-> "</pre>"]
+HTags == {"b", "i", "code", "a", "pre"}
+NT == { <<>>, <<"a">>, <<" ">>, <<"a", " ">>, <<"U+1F600", "NL">> }
+HtmlNest == { <<HOpen[o]>> \o t1 \o <<HOpen[n]>> \o t2 \o <<HClose[n]>> \o t3 \o <<HClose[o]>> \o t4
+              : o \in HTags, n \in HTags, t1 \in {<<>>, <<"a", " ">>}, t2 \in NT, t3 \in {<<>>, <<" ">>, <<"a">>}, t4 \in {<<>>, <<"a">>} }
+MdMarks == {"**", "__", "`", "~~", "||"}
+MdNest == { <<o>> \o t1 \o <<n>> \o t2 \o <<n>> \o t3 \o <<o>> \o t4
+            : o \in MdMarks, n \in MdMarks \cup {"_", "*"}, t1 \in {<<>>, <<"a", " ">>}, t2 \in NT, t3 \in {<<>>, <<" ">>, <<"a">>}, t4 \in {<<>>, <<"a">>} }
 Seqs(T, n) == UNION { [1..k -> T] : k \in 0..n }
 Cases == { [cls |-> "html", in |-> [kind |-> "html", tokens |-> s]] : s \in Seqs(HtmlTokens, MaxLen) }
          \cup { [cls |-> "md", in |-> [kind |-> "md", tokens |-> s]] : s \in Seqs(MdTokens, MaxLen) }
+         \cup { [cls |-> "html", in |-> [kind |-> "html", tokens |-> s]] : s \in HtmlNest }
+         \cup { [cls |-> "md", in |-> [kind |-> "md", tokens |-> s]] : s \in MdNest }
 ASSUME Dump == \A c \in Cases : PrintT(ToJson(c))
 =============================================================================
